@@ -100,7 +100,7 @@ ElectSelf(n) ==
 Timeout(n) ==
   /\ CanCampaign(n) /\ cnt.timeout < MaxTimeout
   /\ cnt' = [cnt EXCEPT !.timeout = @ + 1]
-  /\ Room(Cardinality(Voters(CfgTab, ns[n].cl)))
+  /\ Room(Cardinality(Voters(CfgTab, ns[n].cl)) - 1)
   /\ IF Has("prevote") /\ ~ns[n].xfer
      THEN \* preElectSelf: propose term+1 without changing state
           /\ ns' = [ns EXCEPT ![n].role = "C", ![n].leader = ""]
